@@ -228,6 +228,7 @@ fn run(case: &Value) -> Obs {
     };
 
     let mut fail: Option<(String, &'static str)> = None;
+    let mut anybytes_tags: Vec<String> = Vec::new();
     let mut sch = Vec::new();
     let mut errs = Vec::new();
     let mut all: Vec<(Vec<Vec<u8>>, RunOut)> = vec![(vec![body.clone()], single)];
@@ -292,6 +293,36 @@ fn run(case: &Value) -> Obs {
         if !conserved {
             note((format!("{which}: the output is not the input with whole values inserted / '<..>' spans replaced"), "bytes-not-conserved"), &mut fail);
         }
+        // STRONG relation for ARBITRARY bytes and through the error path (Rio.C04.replace_one_anybytes_final /
+        // insert_one_anybytes_final): a chain of exactly one html stage, EVERY schedule, failing or not.  With k = the index of
+        // the failing call (all chunks when none fails): out = B ++ chunks[k..] verbatim, B = b' ++ pending where
+        // data ++ pending is the UTF-8 split of chunks[..k] and (data, b') meets the stage specification (stage_strong).
+        if kinds.len() == 1 && kinds[0] == "html" && probe_built.len() == 1 {
+            let f = probe_built[0];
+            let k = r.err_at.unwrap_or(chunks.len()).min(chunks.len());
+            let p: Vec<u8> = chunks[..k].concat();
+            let s: Vec<u8> = chunks[k..].concat();
+            match utf8_split(&p) {
+                None => note((format!("{which}: the calls before call {k} succeeded on invalid UTF-8"), "error-state-unexpected"), &mut fail),
+                Some((data, pending)) => {
+                    if !out.ends_with(&s) || !out[..out.len() - s.len()].ends_with(&pending) {
+                        note((format!("{which}: the output does not end with the pending character and the chunks from call {k} on, verbatim"), "stage-spec-violated"), &mut fail);
+                    } else {
+                        let b = &out[..out.len() - s.len() - pending.len()];
+                        match stage_strong(&data, b, f) {
+                            Ok(None) => {
+                                anybytes_tags.push(format!("strong-checked-anybytes:{}", f.action()));
+                                if r.err_at.is_some() {
+                                    anybytes_tags.push(format!("strong-checked-error-path:{}", f.action()));
+                                }
+                            }
+                            Ok(Some(why)) => anybytes_tags.push(format!("strong-skipped:{why}")),
+                            Err(why) => note((format!("{which} (failing call: {:?}): {why}", r.err_at), "stage-spec-violated"), &mut fail),
+                        }
+                    }
+                }
+            }
+        }
     }
     // STRONG per-stage oracle (review A): valid UTF-8 body, no error.  The stream after each prefix of the filter list is
     // taken from the implementation (single chunk); each built stage must meet its specification on (input, output) —
@@ -328,6 +359,7 @@ fn run(case: &Value) -> Obs {
     }
     let e1 = all[0].1.err_at;
     let mut o = Obs::new(json!({"kinds": kinds, "one": hex(&one), "e1": e1, "sch": sch, "errs": errs})).trivial(kinds.is_empty() || body.is_empty());
+    strong_tags.extend(anybytes_tags);
     strong_tags.sort();
     strong_tags.dedup();
     o.tags.extend(strong_tags);
